@@ -846,4 +846,119 @@ theorem rough_monotone (inp a b : Bytes) (h : roughlyContains inp a = true) :
   rw [rough_stop_iff] at *
   exact h.trans (List.sublist_append_left a b)
 
+/-! ### the rough echo read, exact for every segmentation -/
+
+/-- the generic read loop stops at the FIRST piece boundary where its stop test holds -/
+theorem readLoop_min (stop : Bytes → Bool) : ∀ (cs : List Bytes) (acc : Bytes),
+    (∃ j, 1 ≤ j ∧ j ≤ cs.length ∧ stop (acc ++ (cs.take j).flatten) = true) →
+    ∃ k, 1 ≤ k ∧ k ≤ cs.length ∧ readLoop stop acc cs = some (acc ++ (cs.take k).flatten, k) ∧
+      stop (acc ++ (cs.take k).flatten) = true ∧
+      ∀ j, 1 ≤ j → j < k → stop (acc ++ (cs.take j).flatten) = false := by
+  intro cs
+  induction cs with
+  | nil => intro acc ⟨j, h1, h2, _⟩; simp at h2; omega
+  | cons c cs ih =>
+    intro acc ⟨j, h1, h2, h3⟩
+    by_cases hs : stop (acc ++ c) = true
+    · refine ⟨1, Nat.le_refl 1, by simp, ?_, by simpa using hs, fun j hj1 hj2 => by omega⟩
+      unfold readLoop; simp [hs]
+    · have hs' : stop (acc ++ c) = false := by simpa using hs
+      have hj : 2 ≤ j := by
+        rcases Nat.lt_or_ge j 2 with h | h
+        · have : j = 1 := by omega
+          subst this
+          simp at h3
+          rw [h3] at hs'; exact absurd hs' (by simp)
+        · exact h
+      obtain ⟨k, hk1, hk2, hk3, hk4, hk5⟩ := ih (acc ++ c) ⟨j - 1, by omega, by simp at h2; omega, by
+        have : (c :: cs).take j = c :: cs.take (j - 1) := by
+          cases j with
+          | zero => omega
+          | succ n => simp
+        rw [this] at h3
+        simpa [List.append_assoc] using h3⟩
+      refine ⟨k + 1, by omega, by simp; omega, ?_, by simpa [List.append_assoc] using hk4, ?_⟩
+      · unfold readLoop
+        simp only [hs', Bool.false_eq_true, ↓reduceIte]
+        rw [hk3]
+        simp [List.append_assoc]
+      · intro i hi1 hi2
+        rcases Nat.lt_or_ge i 2 with h | h
+        · have : i = 1 := by omega
+          subst this
+          simpa using hs'
+        · have := hk5 (i - 1) (by omega) (by omega)
+          have e : (c :: cs).take i = c :: cs.take (i - 1) := by
+            cases i with
+            | zero => omega
+            | succ n => simp
+          rw [e]
+          simpa [List.append_assoc] using this
+
+/-- the visible echo contained in a buffer: its lower-cased bytes that occur in the (squished) input -/
+def echoPart (vis buf : Bytes) : Bytes := (buf.map lowerByte).filter (fun c => vis.contains c)
+
+theorem echoPart_append (vis a b : Bytes) : echoPart vis (a ++ b) = echoPart vis a ++ echoPart vis b := by
+  simp [echoPart]
+
+theorem filter_self_contains (vis : Bytes) : vis.filter (fun c => vis.contains c) = vis := by
+  rw [List.filter_eq_self]; intro a ha; simpa using ha
+
+/-- **rough matching, the stop test made exact**: if every byte the device interleaves with the echo
+    (junk, blanks, re-drawn characters) is a byte that does not occur in the squished input, then on
+    every prefix `y` of the echo stream the rough test holds iff the whole visible echo has arrived -/
+theorem rough_seen_iff (input s y : Bytes) (hs : echoPart (squish input) s = squish input) (hy : y <+: s) :
+    inputSeen true input y = true ↔ echoPart (squish input) y = squish input := by
+  unfold inputSeen
+  simp only [Bool.not_true, Bool.false_eq_true, ↓reduceIte]
+  rw [rough_stop_iff]
+  have hpre : echoPart (squish input) y <+: squish input := by
+    obtain ⟨z, rfl⟩ := hy
+    rw [echoPart_append] at hs
+    exact ⟨_, hs⟩
+  constructor
+  · intro h
+    have h1 : (squish input).Sublist (echoPart (squish input) y) := by
+      have := h.filter (fun c => (squish input).contains c)
+      rwa [filter_self_contains] at this
+    exact hpre.eq_of_length (Nat.le_antisymm hpre.length_le h1.length_le)
+  · intro h
+    rw [← h]
+    exact List.filter_sublist
+
+/-- **rough echo read, exact for every segmentation** (since fix f3f6abb also for inputs with upper-case
+    letters): over any list of reads of an echo stream in which everything that is not the echo itself
+    consists of bytes foreign to the input, `_read_until_input` in rough mode returns at the FIRST read
+    boundary at which the whole visible echo has arrived — never earlier, never later. -/
+theorem readUntilInput_rough_exact (input s : Bytes)
+    (hs : echoPart (squish input) s = squish input) (cs : List Bytes) (hcs : cs.flatten = s) (hne : cs ≠ []) :
+    ∃ k, 1 ≤ k ∧ readLoop (inputSeen true input) [] cs = some ((cs.take k).flatten, k) ∧
+      echoPart (squish input) (cs.take k).flatten = squish input ∧
+      ∀ j, 1 ≤ j → j < k → echoPart (squish input) (cs.take j).flatten ≠ squish input := by
+  have hpre : ∀ j, (cs.take j).flatten <+: s := by
+    intro j
+    rw [← hcs]
+    conv => rhs; rw [← List.take_append_drop j cs]
+    rw [List.flatten_append]
+    exact List.prefix_append _ _
+  have hlen : 1 ≤ cs.length := by
+    cases cs with
+    | nil => exact absurd rfl hne
+    | cons _ _ => simp
+  obtain ⟨k, hk1, _, hk3, hk4, hk5⟩ := readLoop_min (inputSeen true input) cs []
+    ⟨cs.length, hlen, Nat.le_refl _, by
+      simp only [List.nil_append, List.take_length]
+      rw [rough_seen_iff input s cs.flatten hs (by rw [hcs]; exact List.prefix_refl _), hcs]
+      exact hs⟩
+  simp only [List.nil_append] at hk3 hk4 hk5
+  refine ⟨k, hk1, hk3, (rough_seen_iff input s _ hs (hpre k)).mp hk4, ?_⟩
+  intro j hj1 hj2 h
+  have := hk5 j hj1 hj2
+  rw [(rough_seen_iff input s _ hs (hpre j)).mpr h] at this
+  exact absurd this (by simp)
+
+/-- non-vacuity: input "Sh x" (squished "shx"), echo stream "~S\x08 H^ ~ X" read as "~S\x08" · " H^ ~" · " X" -/
+example : echoPart (squish [83, 104, 32, 120]) [126, 83, 8, 32, 72, 94, 32, 126, 32, 88] = squish [83, 104, 32, 120] := by
+  decide
+
 end Scrapli.Chan
